@@ -282,7 +282,9 @@ def sliver_cases(rng: random.Random, n: int):
 
 def gen_cases(ctx: Ctx, tier: str, salt: int):
     """TLC-generated behaviours (exhaustive for the cfg) + seeded random behaviours"""
-    gen = tlc.generate(ctx, "AllocMC", f"Alloc_gen_{tier}")
+    gen = []
+    for sfx in (["quick"] if tier == "quick" else ["thorough_a", "thorough_b"]):
+        gen += tlc.generate(ctx, "AllocMC", f"Alloc_gen_{sfx}")
     cases = []
     for g in gen:
         nm = len(g["cells"][0][6])
@@ -290,9 +292,11 @@ def gen_cases(ctx: Ctx, tier: str, salt: int):
                       "embs": ALL, "predict": 1})
     ctx.extra["behaviours_from_tlc"] = len(cases)
     rng = random.Random(ctx.seed * 1000003 + salt)
-    if tier == "quick" and len(cases) > 3000:
+    cap = 3000 if tier == "quick" else 40000
+    if len(cases) > cap:
         rng.shuffle(cases)
-        cases = cases[:3000]
+        cases = cases[:cap]
+    ctx.extra["behaviours_from_tlc_replayed"] = len(cases)
     n = 400 if tier == "quick" else 5000
     for _ in range(n):
         a = random_alloc(rng)
